@@ -233,17 +233,27 @@ def check(an: Analysis) -> None:
                         if lf is None or {k: int(v) for k, v in lf.items()} != want_lf:
                             ob7.fail(f, sn.ast, f"the delay function does not get the 1-based attempt number (`{stmt_text(arg.args[0], 30)}` with the loop variable starting at {first_number})")
                             continue
-                    elif ok:
-                        ok = is_name(arg.args[0], ctr)
+                    offset = 0
+                    if ok and not form_b:
+                        from ..domains import linear_form
+
+                        lf = linear_form(d, arg.args[0])  # <counter> + constant
+                        lf_i = {k: int(v) for k, v in lf.items() if v != 0} if lf is not None and all(float(v) == int(v) for v in lf.values()) else None
+                        ok = lf_i is not None and lf_i.get(f"name:{ctr}") == 1 and set(lf_i) <= {f"name:{ctr}", "1"}
+                        offset = lf_i.get("1", 0) if ok else 0
                     if not ok:
                         ob7.fail(f, sn.ast, f"the delay function is not applied to ({ctr}, {exc_name}) in that order")
                     elif not form_b:
                         w = g.search([rh_entry], lambda n, sn=sn: n is sn, skip_node=lambda n: n in incs, skip_edge=sc.skip)
                         lo_, hi_ = g.count_range(lambda n: n in incs, rh_entry, lambda n, sn=sn: n is sn, skip_edge=sc.skip)
-                        if w is not None and (at_first_failure != 1 or hi_ > 0):
-                            ob7.fail(f, sn.ast, "the delay function sees the attempt number before it was advanced (attempt numbers start at 1)", CFG.show_path(w))
-                        elif w is None and at_first_failure + 1 != 1:
-                            ob7.fail(f, sn.ast, f"the first pause is computed for attempt number {at_first_failure + 1}: the counter is {at_first_failure} when the first attempt fails and is advanced before the delay function is applied (attempt numbers start at 1)")
+                        if lo_ != hi_:
+                            ob7.fail(f, sn.ast, "the attempt number the delay function sees depends on the path taken (advanced on some paths only)", CFG.show_path(w) if w is not None else "")
+                        elif at_first_failure + lo_ + offset != 1:
+                            first = at_first_failure + lo_ + offset
+                            if first < 1:
+                                ob7.fail(f, sn.ast, "the delay function sees the attempt number before it was advanced (attempt numbers start at 1)", CFG.show_path(w) if w is not None else "")
+                            else:
+                                ob7.fail(f, sn.ast, f"the first pause is computed for attempt number {first}: the counter is {at_first_failure} when the first attempt fails, advanced {lo_} time(s) before the delay function is applied to `{stmt_text(arg.args[0], 30)}` (attempt numbers start at 1)")
                 else:
                     if isinstance(arg, ast.Call) and d.origins(arg.func) <= {f"param:{DELAY}"} and d.origins(arg.func):
                         ob5.fail(f, sn.ast, f"delay is declared `{ann_txt}` but {label} is not matched by the numeric arm: it falls into the callable arm and is *called* (TypeError on the first failure)")
